@@ -56,4 +56,39 @@ def splitAux : Nat → Bytes → Option (List Bytes)
 /-- `split_packets(blob)` -/
 def splitPackets (blob : Bytes) : Option (List Bytes) := splitAux (blob.length + 1) blob
 
+/-! ## `Verifier::parse_signature` — framing, then the FIRST packet that parses as a Signature
+
+```rust
+split_packets(signature).ok_or(Error::NoSignatureFound)?
+    .into_iter()
+    .find_map(|packet| match pgp::packet::PacketParser::new(io::Cursor::new(packet)).next() {
+        Some(Ok(::pgp::packet::Packet::Signature(sig_packet))) => Some(sig_packet),
+        _ => None,
+    })
+    .ok_or(Error::NoSignatureFound)
+```
+
+The `pgp` crate's packet parser is a PARAMETER: `parsePkt packet = some s` iff the first item the parser yields on the
+bytes of that ONE packet is `Ok(Packet::Signature(s))`; a parse error, another packet type and "no item" are all `none`
+(the closure's `_ => None`). `σ` is whatever the callers read from a parsed signature (`issuer()`, `config.pub_alg`,
+`verify(key, data)`); `none` of the result = `Error::NoSignatureFound`, for broken framing and for "no packet parses as
+a signature" alike. -/
+
+/-- `Verifier::parse_signature` -/
+def parseSignature {σ : Type} (parsePkt : Bytes → Option σ) (blob : Bytes) : Option σ :=
+  match splitPackets blob with
+  | none => none
+  | some packets => packets.findSome? parsePkt
+
+/-- the packets the `find_map` closure is called with, in call order: `find_map` stops at the first `Some` -/
+def consulted {σ : Type} (parsePkt : Bytes → Option σ) : List Bytes → List Bytes
+  | [] => []
+  | p :: ps => if (parsePkt p).isSome then [p] else p :: consulted parsePkt ps
+
+/-- every byte string the OpenPGP parser is handed by `parse_signature(blob)` (nothing at all on broken framing) -/
+def parserCalls {σ : Type} (parsePkt : Bytes → Option σ) (blob : Bytes) : List Bytes :=
+  match splitPackets blob with
+  | none => []
+  | some packets => consulted parsePkt packets
+
 end RpmVerif.Pgp
